@@ -329,6 +329,7 @@ def is_last_read_switch(b, j):
 
 def sticky_errors(ctx, P):
     """The SEIPDv1/SED stream decryptor poisons itself before an error leaves it (a retry after an error can never end cleanly)."""
+    sticky_errors_v2(ctx, P)
     b = ctx.body(SD + 'finalize_data')
     if b is not None:
         stick(ctx, P + ':v1:finalize:sticky-error', b)
@@ -359,6 +360,62 @@ def sticky_errors(ctx, P):
         ctx.check(P + ':v1:fill_inner:sticky-error', 'R-dom', 'an Err from fill_data sets the state to Error before it is returned', ok, function=b.path, **det)
 
 
+def sticky_errors_v2(ctx, P):
+    """The SEIPDv2 / AEAD stream decryptor remembers a failure: the function through which read() and fill_buf() obtain data
+    (fill_inner) starts with a test of a bool latch field whose set edge returns Err, and every other Err exit of that function is
+    preceded by setting the latch.  Without it, reading again after the final tag was rejected hands out the rest of the buffered
+    plaintext and then ends cleanly."""
+    rd = ctx.body('<crypto::aead::decryptor::StreamDecryptor<R> as std::io::Read>::read')
+    fb = ctx.body('<crypto::aead::decryptor::StreamDecryptor<R> as std::io::BufRead>::fill_buf')
+    if rd is None or fb is None:
+        return
+    def entry_of(x):
+        return [t['f'].get('fn') for i, t in x.calls() if (t['f'].get('fn') or '').startswith(AD)][:1]
+    e1, e2 = entry_of(rd), entry_of(fb)
+    entry = e1[0] if e1 and e1 == e2 else AD + 'fill_inner'
+    worker = aead_worker(ctx)
+    b = ctx.body(entry)
+    if b is None:
+        return
+    errs = err_exit_blocks(b)
+    # candidate latch fields: bool fields of self stored with const true in this function
+    stores = {}
+    for i, k, s in b.stmts(lambda s: s['d']['l'] == 1 and len(s['d']['pr']) == 2 and s['d']['pr'][0] == '*' and s['r']['k'] == 'use'
+                           and 'k' in s['r']['o'][0] and s['r']['o'][0]['k'].get('ty') == 'bool' and s['r']['o'][0]['k'].get('v') in (1, True)):
+        stores.setdefault(s['d']['pr'][1], []).append(i)
+    best = None
+    for fld, sts in sorted(stores.items()):
+        name = fld.split('.')[-1]
+        gs = [g for g, rej in guard_switches(b, b.returns(), [r'field:StreamDecryptor\.%s$' % re.escape(name)]) ] if False else []
+        # entry guard: a switch on the field one of whose edges leads only to Err exits
+        guard = None
+        for g, t in b.switches():
+            if not has_origin(b.switch_origins(g), r'field:StreamDecryptor\.%s$' % re.escape(name)) or has_origin(b.switch_origins(g), r'^call:'):
+                continue
+            for j, _ in b.succ(g):
+                reach = b.reach_from([j])
+                rets = [x for x in b.returns() if x in reach]
+                if any(e in reach for e in errs) and not [i for i, k_, s_ in b.constructs(r'std::result::Result$', 'Ok') if i in reach]:
+                    guard = (g, j)
+        if guard is None:
+            continue
+        latch_errs = set(e for e in errs if e in b.reach_from([guard[1]]))
+        other = [e for e in errs if e not in latch_errs]
+        ok, wit = must_pass(b, other, sts) if other else (False, None)
+        best = (name, guard, ok, wit, len(other))
+        if ok:
+            break
+    through = bool(e1) and e1 == e2
+    if entry != worker:
+        # the worker is reachable only through the latching entry
+        callers = sorted(p for p, r in ctx.f.bodies.items() if p != worker and ctx.wrap(r).calls(re.escape(worker) + '$'))
+        through = through and callers == [entry]
+    ctx.check(P + ':v2:sticky-error', 'R-dom', 'the AEAD stream decryptor latches a failure: fill_inner rejects at entry once the latch is set, and every other error exit sets it first; read() and fill_buf() go through fill_inner',
+              best is not None and best[2] and through, function=b.path, latch=best[0] if best else None, error_exits=best[4] if best else len(errs),
+              witness=fmt_path(b, best[3]) if best and best[3] else None,
+              missing=None if (best and best[2] and through) else ('no bool field of the decryptor is tested at entry with an error edge and set before the other %d error exits' % len(errs)))
+
+
 def stick(ctx, key, b):
     """mem::replace(self, Error) happens before any fallible call: every Err exit passes through it."""
     reps = []
@@ -374,8 +431,15 @@ def stick(ctx, key, b):
               bool(reps) and ok, function=b.path, witness=fmt_path(b, wit) if wit else None)
 
 
+def aead_worker(ctx):
+    """The function of the AEAD stream decryptor that pulls ciphertext from the source (located by what it does, not by name)."""
+    c = [p for p, r in sorted(ctx.f.bodies.items()) if p.startswith(AD) and r['kind'] != 'Closure' and ctx.wrap(r).calls(r'fill_buffer_bytes$')]
+    return c[0] if len(c) == 1 else AD + 'fill_inner'
+
+
 def seipdv2(ctx, P):
-    b = ctx.body(AD + 'fill_inner')
+    worker = aead_worker(ctx)
+    b = ctx.body(worker)
     if b is not None:
         oks = ok_exit_blocks(b)
         reads = b.calls(r'fill_buffer_bytes$')
@@ -417,7 +481,7 @@ def seipdv2(ctx, P):
                 s['r']['k'] == 'agg' and s['r'].get('adt', '').endswith('decryptor::StreamDecryptor') for blk in bb.blocks for s in blk['s']):
             writers.append(p)
     ctx.check(P + ':v2:who-writes-source-done', 'R-who', 'is_source_done is written only by fill_inner (and initialised by the constructors)',
-              sorted(writers) == sorted([AD + 'fill_inner', AD + 'new_gnupg', AD + 'new_rfc9580']), table=sorted(writers))
+              sorted(writers) == sorted([worker, AD + 'new_gnupg', AD + 'new_rfc9580']), table=sorted(writers))
     c = ctx.f.consts.get('crypto::aead::decryptor::AEAD_TAG_SIZE')
     ctx.check(P + ':v2:tag-size-16', 'R-table', 'AEAD_TAG_SIZE == 16', c is not None and c['v'] == 16)
 
